@@ -186,7 +186,22 @@ class C09(BaseCheck):
         if k.random() < 0.08:
             case['stdout_fault'] = {'kind': k.choice(['epipe', 'enospc', 'closed', 'ascii']), 'at': k.randrange(1, 4)}
         deliveries = []
-        if roll < 0.15:
+        if roll >= 0.92:
+            # arbitrary character strings: no writer at all, just noise over the grammar's alphabet,
+            # half of the time behind a valid header so that the grammar proper is reached
+            case['class'] = 'garbage'
+            case['ver'] = k.choice(['2.0', '3.0'])
+            alphabet = channel.META + channel.CONTROL + list('abcxyzTNMRCZ0123456789') + ['NA', 'ver:', 'INF', 'hex(', 'Bin(', '\\u00', 'T12:', '-01-']
+            texts = []
+            for _ in range(k.choice([10, 20, 30])):
+                body = ''.join(r.choice(alphabet) for _ in range(r.choice([0, 1, 2, 4, 8, 16, 40])))
+                texts.append(('ver:"%s"\n%s' % (case['ver'], body)) if r.random() < 0.5 else body)
+            case['base'] = 'ver:"%s"\na\n1\n' % case['ver']
+            deliveries.append({'text': case['base'], 'faults': [], 'must_reject': None})
+            for t in texts:
+                deliveries.append({'text': t, 'faults': ['garbage'], 'must_reject': None})
+            others = texts[:2]
+        elif roll < 0.15:
             case['class'] = 'scalar'
             ver = k.choice(['2.0', '3.0', '3.0'])
             case['ver'] = ver
@@ -196,6 +211,10 @@ class C09(BaseCheck):
             deliveries.append({'text': base, 'faults': [], 'must_reject': None})
             for cut in range(len(base)):
                 deliveries.append({'text': base[:cut], 'faults': ['truncate'], 'must_reject': None})
+            alphabet = channel.META + channel.CONTROL[:8] + list('abcxyzTNMRCZ0123456789') + ['NA', 'INF', 'hex(', '\\u00', 'T12:', '-01-', 'kW', '%']
+            for _ in range(6):
+                deliveries.append({'text': ''.join(r.choice(alphabet) for _ in range(r.choice([1, 2, 3, 5, 9]))),
+                                   'faults': ['garbage'], 'must_reject': None})
         else:
             maxr = 2 if k.random() < 0.9 else 3
             d = zincpeer.gen_doc(r, max_cols=k.choice([1, 2, 3]), max_rows=maxr)
